@@ -63,5 +63,6 @@ def build(race=False):
 
 
 def run(binpath, cases, timeout=900):
-    payload = [{"id": i, "src": c["src"], "muts": c.get("muts", [])} for i, c in enumerate(cases)]
+    payload = [dict({"id": i, "src": c["src"], "muts": c.get("muts", [])},
+                    **({"files": c["files"], "root": c["root"]} if c.get("files") else {})) for i, c in enumerate(cases)]
     return vlib.go_run(binpath, payload, tag="c20", timeout=timeout, env={"GORACE": "halt_on_error=1"})
